@@ -270,3 +270,28 @@ PROPS["C17"] = {
                      {"mode": "big", "kv": {"maxlen": 16777216, "count": 12}}, {"mode": "rc", "cases": 30000, "workers": 8}],
     },
 }
+
+PROPS["C15"] = {
+    "manifest": {
+        "level_text": ("Round-trip oracle over (algorithm, entry point, level, buffer): an exhaustive sweep of every length 0..64 (0..300 in "
+                       "the thorough tier) x 4 contents x 5 algorithms x {mtbl_compress, mtbl_compress_level at 16 levels from INT_MIN to "
+                       "INT_MAX}, then rapidcheck-generated structured buffers (runs, repeats, random islands) up to 4 MiB; an abort of "
+                       "the process is a failure (cases run in forked children). Algorithm names: to_str/from_str identity, case mixes, "
+                       "generated near-misses refused. Exploration."),
+        "level_note": TRUST + " mtbl_decompress is only ever given what mtbl_compress* returned (decompressing garbage is outside the property).",
+        "technique": PBT + "; round-trip oracle; exhaustive small-length enumeration",
+    },
+    "src": "props/C15.cpp",
+    "level": "exploration",
+    "rule": ("mode small: each (algorithm, entry point, level) x every length 0..maxlen x {zeros, ramp, LCG-random, period-3} is one "
+             "round trip (distinct by construction, counter small_roundtrips). mode rc: case = (algorithm incl. NONE/unknown values, entry "
+             "point, level, 0-3 buffer segments) or an algorithm-name check; non-trivial = a real algorithm (1..5) or a name check; "
+             "distinct by FNV-1a of the serialised case."),
+    "expect_tags": ["algo_snappy", "algo_zlib", "algo_lz4", "algo_lz4hc", "algo_zstd", "not_an_algorithm", "len_le16", "empty_buffer",
+                    "len_ge1MiB", "len_gt16MiB", "compress_level", "level_out_of_range", "known_name", "unknown_name"],
+    "assumptions": ["system zlib/snappy/lz4/zstd are correct"],
+    "tiers": {
+        "quick": [{"mode": "small", "kv": {"maxlen": 64}}, {"mode": "big", "workers": 5, "kv": {"sizes": 1}}, {"mode": "rc", "cases": 1200, "max_size": 100}],
+        "thorough": [{"mode": "small", "kv": {"maxlen": 300}}, {"mode": "big", "workers": 5, "kv": {"sizes": 2}}, {"mode": "rc", "cases": 6000, "max_size": 100}],
+    },
+}
